@@ -154,6 +154,10 @@ def _ex(**kw):
 
 
 CORPUS = [
+    # a setup node that has run is reconfigured (priority only): it keeps its stored result
+    _chain_case(3, [[0, 1], [1, 2]], [dict(kind="call", args=[], run_debug=False), dict(kind="config", config={"nodes": {"@0": {"priority": 4}}}), dict(kind="call", args=[], run_debug=False),
+                                     dict(kind="config", config={"nodes": {"@1": {"priority": 2, "is_sequential": True}}}), dict(kind="setup", target=None, exclude=None, root=None), _ex()], setup=[0, 1]),
+    _chain_case(3, [[0, 2], [1, 2]], [dict(kind="setup", target=None, exclude=None, root=None), dict(kind="config", config={"nodes": {"@0": {"priority": 1}}}), dict(kind="call", args=[], run_debug=False)], setup=[0], is_async=True),
     # an unknown alias after the instance has been called / set up
     _chain_case(3, [[0, 1], [1, 2]], [dict(kind="call", args=[], run_debug=False), dict(kind="badalias", how="target"), dict(kind="badalias", how="root"), dict(kind="badalias", how="exclude")], tags={"0": "t0"}),
     _chain_case(3, [[0, 1], [1, 2]], [dict(kind="setup", target=None, exclude=None, root=None), dict(kind="badalias", how="target")], setup=[0], is_async=True),
@@ -712,6 +716,17 @@ def run(pid, tier, seed, res, only=None):
                 lack = sorted(x for x in must if x not in o["cache_keys_written"])
                 if lack:
                     res.hit("C18", "monitor", "the file written with cache_in lacks the results of %s, which this run computed or loaded" % lack, dict(base, kind="monitor", op_index=oi))
+            if o["status"] == "ok" and op.get("from_cache") is not None and isinstance(o.get("value"), tuple) and not case.get("bad_index"):
+                # results travel by reference, also through a cache file: where node k was handed the result of node j,
+                # the value k returned CONTAINS the very object the run returns for j (pickle keeps aliasing inside one file)
+                val_ = o["value"]
+                esort_ = sorted(tuple(e_) for e_ in case["edges"])
+                for j_, k_ in esort_:
+                    if k_ < len(val_) and j_ < len(val_) and isinstance(val_[k_], tuple) and isinstance(val_[j_], tuple) and k_ not in case.get("none_ret", []) and j_ not in case.get("none_ret", []):
+                        pos_ = 1 + sorted(a_ for a_, b_ in esort_ if b_ == k_).index(j_)
+                        if pos_ < len(val_[k_]) and val_[k_][pos_] is not None and val_[k_][pos_] is not val_[j_] and val_[k_][pos_] == val_[j_] and nm(k_) in o.get("cache_keys_loaded", []) and nm(j_) in o.get("cache_keys_loaded", []):
+                            res.hit("C18", "monitor", "restart (operation %d): the result of %s loaded from the cache file no longer contains THE result of %s it was computed from, but an equal copy of it" % (oi, nm(k_), nm(j_)), dict(base, kind="monitor", op_index=oi))
+                            break
             if o["status"] == "ok" and op["cache_in"] and op["cache_deps_of"] is not None:
                 depn = names(op["cache_deps_of"])
                 keys = o.get("cache_keys_written", [])
